@@ -157,8 +157,8 @@ Ltac li_tac :=
             destruct A as (A1 & _ & A3 & A4 & _); lo_simpl; rewrite ?A1, ?A3, ?A4;
             first [left; reflexivity | right; left; reflexivity | right; right; lia] end ].
 
-Ltac gs_solve :=
-  lo_simpl; g_fields;
+Ltac gs_core :=
+  g_fields;
   split;
   [ lo_simpl; reflexivity
   | sh_simpl; g_rew; reflexivity
@@ -178,6 +178,9 @@ Ltac gs_solve :=
   | unfold levl; sh_simpl; lo_simpl; g_rew;
     repeat match goal with H : ql ?s = _ :: _ |- _ => rewrite H end;
     first [left; incl_tac | right; reflexivity] ].
+
+Ltac gs_solve :=
+  lo_simpl; try (match goal with |- gstep _ _ (if ?c then _ else _) _ => destruct c end); gs_core.
 
 Ltac wg1 :=
   cbv beta;
@@ -266,7 +269,7 @@ Ltac gend :=
 
 Lemma all_calls_wg c : wgl (code_of c) GEnd lo0.
 Proof.
-  destruct c; cbn [code_of]; unfold processif_code, processuntil_code, putback; cbv beta iota delta [GenQConc.dqn_dtor_decrement_under_mutex GenQConc.processif_putback_notifies GenQConc.processuntil_putback_notifies].
+  destruct c; cbn [code_of]; unfold processif_code, processuntil_code, putback, notify_code, dqn_ghost; cbv beta iota delta [GenQConc.dqn_dtor_decrement_under_mutex GenQConc.processif_putback_notifies GenQConc.processuntil_putback_notifies].
   all: repeat wg2.
   all: try gs_solve.
   all: try li_tac.
@@ -274,6 +277,10 @@ Proof.
   all: try (lo_simpl; lia).
   all: try (repeat match goal with A : gsame _ _ |- _ => let A3 := fresh "A3" in destruct A as (_ & _ & A3 & _ & _) end;
             unfold GEnd in *; lo_simpl; lia).
+  all: try (repeat match goal with A : gsame _ _ |- _ =>
+                     let A1 := fresh "A1" in let A3 := fresh "A3" in let A4 := fresh "A4" in destruct A as (A1 & _ & A3 & A4 & _) end;
+            unfold LI; lo_simpl;
+            first [left; congruence | right; left; congruence | right; right; lia]).
 Qed.
 
 (* ---------- the ghost invariant over the shared state and all threads' locals ---------- *)
